@@ -17,8 +17,10 @@ pub mod props_dnsfunc;
 pub mod props_dnsroute;
 pub mod props_dnswire;
 pub mod props_dnswire2;
+pub mod props_netwire;
 pub mod rfc1035;
 pub mod wire_dns;
+pub mod wire_net;
 pub mod props_dhcp;
 pub mod rfc2131;
 
@@ -32,7 +34,11 @@ pub fn level_of(id: &str) -> &'static str {
 }
 
 pub fn has_wire_tier(id: &str) -> bool {
-    matches!(id, "C03" | "C04" | "C05" | "C06" | "C07" | "C08" | "C15" | "C16")
+    matches!(id, "C03" | "C04" | "C05" | "C06" | "C07" | "C08" | "C10" | "C12" | "C15" | "C16" | "C18" | "C20")
+}
+
+pub fn has_net_tier(id: &str) -> bool {
+    matches!(id, "C05" | "C08" | "C10" | "C12" | "C18" | "C20")
 }
 
 /// Enter the private namespaces if this property has a wire tier.  Ok(true) = wire available.
@@ -44,6 +50,9 @@ pub fn prepare_wire(id: &str) -> Result<bool, String> {
         return Err("erbium binaries not built (run ./setup.sh)".into());
     }
     netns::enter_private_namespaces()?;
+    if has_net_tier(id) {
+        wire_net::setup_topology()?;
+    }
     Ok(true)
 }
 
@@ -71,6 +80,10 @@ pub fn run_check(id: &str, tier: Tier) -> i32 {
         "C10" => {
             ctx.rule("same histories; oracle: option 51 present, 300..=86400, record duration equals it and record does not expire early; non-trivial = reply for an address the client already had a row for (lease time computed from history)");
             props_dhcp::run_hist_func(&ctx, id);
+            if wire_ok && ctx.violations.lock().unwrap().is_empty() {
+                ctx.rule("wire-dhcp-exchange: OFFER and ACK frames captured from the real erbium-dhcp: option 51 present and within bounds; the database row of the ACK runs exactly that long and does not expire early");
+                props_netwire::run_c10_wire(&ctx);
+            }
         }
         "C13" => {
             ctx.rule("same histories with every message type 0..255/absent and server-id kinds; oracle: frame condition on the lease table + header echo; non-trivial = an unanswered message arriving while the sender already has a row");
@@ -79,14 +92,26 @@ pub fn run_check(id: &str, tier: Tier) -> i32 {
         "C18" => {
             ctx.rule("reopen: twin histories (file-backed, reopened at generated points) vs uninterrupted in-memory twin; oldschema: generated v0/v1/newer databases; non-trivial = reopen with live leases of >=2 clients / a database with rows");
             props_dhcp::run_c18_func(&ctx);
+            if wire_ok && ctx.violations.lock().unwrap().is_empty() {
+                ctx.rule("wire-kill: a stream of DISCOVER/REQUEST frames from 4..16 clients to the real erbium-dhcp, SIGKILL after a generated number of frames + 0..2000 us; then: the database opens, every row is well-formed, every lease whose reply was captured before the kill has its row, and the restarted server offers the same clients the same addresses");
+                props_netwire::run_c18_kill(&ctx);
+            }
         }
         "C20" => {
             ctx.rule("gauges: after every step of a generated history get_pool_metrics must equal the harness's own count from get_leases; non-trivial = both classes non-empty");
             props_dhcp::run_c20_func(&ctx);
+            if wire_ok && ctx.violations.lock().unwrap().is_empty() {
+                ctx.rule("wire-listing: 2..40 (thorough 250) DHCP clients whose client-identifier and host-name options are drawn from byte strings 0..255 with quotes, backslashes, C0 controls, DEL, invalid UTF-8, multi-byte and U+2028 against the real erbium; GET /api/v1/leases.json must parse with a strict JSON parser and be in bijection (address, client id bytes, start, expiry) with the rows read from the same SQLite file; gauges from /metrics equal the harness's count before any generated lease and after ageing every n-th row");
+                props_netwire::run_c20_wire(&ctx);
+            }
         }
         "C12" => {
             ctx.rule("message: generated DHCP messages (all header values, hlen 0..16, option multisets with repeated/zero-length/1500-octet values) -> parse -> serialise -> parse and an RFC 2131/3396 decoder; frame: generated payloads 0..1472 x addresses x MACs through Fragment::new_udp4, decoded by an independent Ethernet/IPv4/UDP decoder with checksum verification; broadcast-flag: all 65536 flag values; non-trivial = long/repeated/zero-length option, odd payload, every flag value");
             props_codec::run_c12_func(&ctx);
+            if wire_ok && ctx.violations.lock().unwrap().is_empty() {
+                ctx.rule("wire-dhcp-exchange: DISCOVER+REQUEST with sampled flag values against the real erbium-dhcp over a veth pair; captured frames decoded by the independent Ethernet/IPv4/UDP decoder: IPv4 destination is 255.255.255.255 iff bit 15, else yiaddr; Ethernet destination = chaddr; reply echoes xid/flags");
+                props_netwire::run_c12_wire(&ctx);
+            }
         }
         "C14" => {
             ctx.rule("structured: generated messages (1..2000 records, names sharing suffixes at every depth, all rdata kinds, EDNS options) -> erbium DNSPkt -> serialise -> crate parser (equality) and independent RFC 1035 decoder (field-by-field at RFC bit positions, pointer audit); bytes: harness-encoded messages under three compression modes with 0..2 byte edits, accepted inputs re-encoded and compared; non-trivial = pointer inside rdata, or > 16 KiB, or EDNS options / accepted multi-record input");
@@ -133,6 +158,10 @@ pub fn run_check(id: &str, tier: Tier) -> i32 {
                 ctx.rule("wire-dns: batches of 16..64 hostile byte strings (seed packets, members of the boundary family, extra edits) delivered to the real erbium-dns as UDP datagrams, as TCP frames, and as upstream replies over UDP and over TCP; after every batch: no panic line in the server log, process alive, a well-formed query over UDP and over TCP answered with its own answer");
                 props_dnswire2::run_c05_wire(&ctx);
             }
+            if wire_ok && ctx.violations.lock().unwrap().is_empty() {
+                ctx.rule("wire-dhcp: batches of 16..64 hostile DHCP payloads (seed messages, boundary-family members, every hlen 0..255, every message type, option-length families) broadcast to the real erbium-dhcp over a veth pair; after every batch: no new panic line in the server log, process alive, a well-formed DISCOVER answered");
+                props_netwire::run_c05_dhcp_wire(&ctx);
+            }
         }
         "C02" => {
             ctx.rule("address-set: generated configurations (0..2 top-level addresses /22../30 with and without host bits; dhcp-policies trees depth<=3 width<=3 with match-subnet/match-hardware-address and apply-address/apply-subnet/apply-range blocks cut from one /22 so that parents, children and siblings overlap; receiving address on first/last/middle host, inside a child's block, or on another subnet) rendered to YAML and loaded through the real loader; oracle: documented set D from an independent model of erbium.conf(5); pools <= 300 addresses are drained with fresh client identifiers (leases == D exactly, each once), larger pools are probed with option 50 at every boundary; non-trivial = D non-empty and different from a plain host range");
@@ -151,6 +180,10 @@ pub fn run_check(id: &str, tier: Tier) -> i32 {
             if wire_ok && ctx.violations.lock().unwrap().is_empty() {
                 ctx.rule("wire-dns-acl: generated ACL lists over the addresses available on loopback (127/8 sub-prefixes, ::1, fd00:e::/64 sub-prefixes, ::ffff:127.x/96+n, with and without host bits) on a real erbium-dns with a dual-stack listener; clients from 8 source addresses over UDP and TCP ask a fresh name and a name another client may have put in the cache; oracle: first-match model: granted <=> own answer; refused => REFUSED (or silence on UDP), upstream never asked, also for cached names");
                 props_dnswire2::run_c08_wire(&ctx);
+            }
+            if wire_ok && ctx.violations.lock().unwrap().is_empty() {
+                ctx.rule("wire-http-acl: generated ACL lists over the client addresses of the veth rig (10.55.0.0/24 sub-prefixes, fd55::/64 sub-prefixes, ::ffff:10.55.0.x/96+n, host bits, match-unix) on the real erbium; GET /, /metrics and /api/v1/leases.json from TCP/IPv4 (seen as mapped), TCP/IPv6 and the unix socket with bound and unbound clients; oracle: status 200 <=> first-match model grants http / http-metrics / http-leases, else 403; every request answered");
+                props_netwire::run_c08_http(&ctx);
             }
         }
         "C17" => {
@@ -223,6 +256,7 @@ pub fn run_replay(path: &str) -> i32 {
                 .or_else(|| props_dnsroute::replay(id, sub, case))
                 .or_else(|| props_dnsconc::replay(id, sub, case))
                 .or_else(|| props_dnswire2::replay(id, sub, case))
+                .or_else(|| props_netwire::replay(id, sub, case))
         }
     };
     match res {
@@ -246,4 +280,40 @@ pub fn run_replay(path: &str) -> i32 {
             }
         },
     }
+}
+
+pub const NET_CONF: &str = "---\naddresses: [10.55.0.0/24, \"fd55::/64\"]\napi-listeners: [\"/var/lib/erbium/control\", \"[::]:9968\"]\ndns-routes: []\n";
+
+pub fn net_selftest() -> i32 {
+    if let Err(e) = netns::enter_private_namespaces() {
+        eprintln!("ns: {}", e);
+        return 2;
+    }
+    if let Err(e) = wire_net::setup_topology() {
+        eprintln!("topology: {}", e);
+        return 2;
+    }
+    let raw = wire_net::RawIf::open("cli0").expect("raw");
+    let mut srv = wire_net::NetServer::start("erbium", NET_CONF, "info").expect("start");
+    match srv.wait_dhcp_ready(&raw) {
+        Ok(()) => println!("dhcp ready"),
+        Err(e) => {
+            println!("not ready: {}", e);
+            return 1;
+        }
+    }
+    let mut m = rfc2131::Msg { xid: 77, flags: 0, ..Default::default() };
+    m.set_hw(&[2, 0, 0, 0, 0, 9]);
+    m.options.push((rfc2131::OPT_MSG_TYPE, vec![rfc2131::DISCOVER]));
+    m.options.push((rfc2131::OPT_HOSTNAME, b"a\x01b\"c".to_vec()));
+    println!("exchange: {:?}", wire_net::dhcp_exchange(&raw, &m, std::time::Duration::from_secs(2)).map(|r| r.map(|f| (f.frame.ip_dst, f.msg.yiaddr, f.msg.option_map().keys().cloned().collect::<Vec<_>>()))));
+    println!("unix /: {:?}", wire_net::http_unix(wire_net::CONTROL, Some("/var/lib/erbium/cli.sock"), "/").map(|r| (r.status, String::from_utf8_lossy(&r.body).to_string())));
+    println!("tcp4 /api: {:?}", wire_net::http_tcp(std::net::IpAddr::V4(wire_net::CLI4[0]), std::net::SocketAddr::new(std::net::IpAddr::V4(wire_net::SRV4), 9968), "/api/v1/leases.json").map(|r| (r.status, String::from_utf8_lossy(&r.body).to_string())));
+    println!("tcp6 /metrics: {:?}", wire_net::http_tcp(std::net::IpAddr::V6(wire_net::cli6(0)), std::net::SocketAddr::new(std::net::IpAddr::V6(wire_net::srv6()), 9968), "/metrics").map(|r| (r.status, r.body.len())));
+    println!("db rows: {:?}", wire_net::db_rows().map(|r| r.len()));
+    println!("unix unbound /: {:?}", wire_net::http_unix(wire_net::CONTROL, None, "/").map(|r| r.status));
+    println!("unix bound again /: {:?}", wire_net::http_unix(wire_net::CONTROL, Some("/var/lib/erbium/cli.sock"), "/").map(|r| r.status));
+    println!("panics: {:?}", srv.panics());
+    println!("---- stderr tail ----\n{}", srv.stderr_tail());
+    0
 }
